@@ -216,15 +216,26 @@ Print Assumptions C18_coroutine_awaited_to_same_result.
 
 (* ---- exact own effects ---------------------------------------------------------------------------------------------- *)
 (* count_calls: by induction on the call history, for every callee behaviour (returns, raises, anything): after n
-   calls the counter is n larger, and the counter starts at 0.  The callee is only asked not to write the
-   wrapper's counter itself *)
+   calls the num_calls of THIS wrapper object (cx_self) is n larger, and a freshly created wrapper starts at 0.  The
+   callee is only asked not to write this wrapper's counter itself (an inner count_calls wrapper has its own) *)
 Theorem C18_count_exact : forall Sigma (cx : ctx Sigma) calls s,
-  (forall c a k s, ws_cnt (ws (snd (c_call (cx_callee cx c) a k s))) = ws_cnt (ws s)) ->
-  (forall c a k s, ws_cnt (ws (snd (c_resume (cx_callee cx c) a k s))) = ws_cnt (ws s)) ->
-  ws_cnt (ws (run_calls (use_wrapped d_count_calls cx) calls s)) = (ws_cnt (ws s) + Z.of_nat (List.length calls))%Z
+  let me := cx_self cx in
+  (forall c a k s, cnt_get me (ws_cnt (ws (snd (c_call (cx_callee cx c) a k s)))) = cnt_get me (ws_cnt (ws s))) ->
+  (forall c a k s, cnt_get me (ws_cnt (ws (snd (c_resume (cx_callee cx c) a k s)))) = cnt_get me (ws_cnt (ws s))) ->
+  cnt_get me (ws_cnt (ws (run_calls (use_wrapped d_count_calls cx) calls s)))
+    = (cnt_get me (ws_cnt (ws s)) + Z.of_nat (List.length calls))%Z
   /\ d_counter_init d_count_calls = Some 0%Z.
 Proof. intros. split; [now apply count_history | reflexivity]. Qed.
 Print Assumptions C18_count_exact.
+
+(* ... and a count_calls wrapper writes no other wrapper's counter *)
+Theorem C18_count_only_own_counter : forall Sigma (cx : ctx Sigma) id a k s,
+  id <> cx_self cx ->
+  (forall c a k s, cnt_get id (ws_cnt (ws (snd (c_call (cx_callee cx c) a k s)))) = cnt_get id (ws_cnt (ws s))) ->
+  (forall c a k s, cnt_get id (ws_cnt (ws (snd (c_resume (cx_callee cx c) a k s)))) = cnt_get id (ws_cnt (ws s))) ->
+  cnt_get id (ws_cnt (ws (snd (use_wrapped d_count_calls cx a k s)))) = cnt_get id (ws_cnt (ws s)).
+Proof. intros. now apply count_other_untouched. Qed.
+Print Assumptions C18_count_only_own_counter.
 
 (* mock never runs the body: the state (world and wrapper journal) is untouched, the caller gets return_value *)
 Theorem C18_mock_never_calls : forall Sigma (cx : ctx Sigma) a k s,
@@ -322,14 +333,15 @@ Theorem C18_class_methods_partial : forall Sigma n (cx : ctx Sigma) fn g m acc s
 Proof. exact class_call_transparent. Qed.
 Print Assumptions C18_class_methods_partial.
 
-Definition ex_ws : wst := {| ws_log := []; ws_cnt := 0; ws_filter := FaDefault; ws_warned := false |}.
+Definition ex_ws : wst := {| ws_log := []; ws_cnt := []; ws_filter := FaDefault; ws_warned := false |}.
 Definition ex_s0 : st jst := Build_st [] ex_ws.
 Definition ex_beh : beh := fun _ _ _ i => Ok (VObj (100 + i)).
 Definition ex_accepts (arity : nat) : callee -> args -> kwargs -> bool := fun _ a _ => Nat.eqb (List.length a) arity.
 (* def s(x) / def c(cls, x) *)
 Definition ex_fn (arity : nat) : cdesc jst := beh_callee ex_beh (ex_accepts arity) CFunc false.
-Definition ex_cx (f : cdesc jst) : ctx jst :=
-  Build_ctx (fun _ => f) (fun _ => VNone) [] (fun _ _ => false) (fun _ _ => true) (fun _ _ => None) raise_warning_prog.
+Definition ex_cx_id (id : nat) (f : cdesc jst) : ctx jst :=
+  Build_ctx (fun _ => f) (fun _ => VNone) [] (fun _ _ => false) (fun _ _ => true) (fun _ _ => None) raise_warning_prog id.
+Definition ex_cx := ex_cx_id 0.
 
 (* obj.s(2) on a @trace_class class: TypeError, the undecorated class returns *)
 Theorem C18_class_static_via_instance_refuted :
@@ -369,7 +381,7 @@ Print Assumptions C18_class_classmethod_frozen_cls_refuted.
 Definition kw_test (strip : nat) : args -> kwargs -> option exn :=
   fun a _ => if Nat.ltb strip (List.length a) then Some PCallWithArgsC else None.
 Definition ex_cx_kw (strip : nat) (f : cdesc jst) : ctx jst :=
-  Build_ctx (fun _ => f) (fun _ => VNone) [] (fun _ _ => false) (fun _ _ => true) (kw_test strip) raise_warning_prog.
+  Build_ctx (fun _ => f) (fun _ => VNone) [] (fun _ _ => false) (fun _ _ => true) (kw_test strip) raise_warning_prog 1.
 
 Theorem C18_require_kwargs_by_call_over_wrapped_method_refuted :
   exists self k,
@@ -402,14 +414,26 @@ Example C18_example_runs :
   let cx := ex_cx (ex_fn 1) in
   use_stacked d_trace cx d_count_calls cx [VObj 7] [] ex_s0 =
     (ROk (VObj 100), Build_st [CallRec CFunc [VObj 7] []]
-       {| ws_log := [EvPrint; EvCount 1; EvPrint; EvPrint]; ws_cnt := 1; ws_filter := FaDefault; ws_warned := false |}) /\
+       {| ws_log := [EvPrint; EvCount 1; EvPrint; EvPrint]; ws_cnt := [(0%nat, 1%Z)]; ws_filter := FaDefault; ws_warned := false |}) /\
   fst (use_wrapped d_rename_kwargs
          (Build_ctx (fun _ => ex_fn 0) (fun _ => VNone) [("old", "new")]%string (fun _ _ => false) (fun _ _ => true)
-                    (fun _ _ => None) raise_warning_prog) [] [("old"%string, VObj 5)] ex_s0) = ROk (VObj 100) /\
+                    (fun _ _ => None) raise_warning_prog 0) [] [("old"%string, VObj 5)] ex_s0) = ROk (VObj 100) /\
   n_deprecation (ws_log (ws (run_calls (use_wrapped d_deprecated cx) [([VObj 1], []); ([], []); ([VObj 2], [])] ex_s0))) = 3%nat /\
   (* the same through an async def: the sync wrapper of count_calls counts at call time, the body runs when awaited *)
   let cxa := ex_cx (beh_callee ex_beh (ex_accepts 1) CFunc true) in
   use_stacked d_trace cxa d_count_calls cxa [VObj 7] [] ex_s0 =
     (ROk (VObj 100), Build_st [CallRec CFunc [VObj 7] []]
-       {| ws_log := [EvPrint; EvCount 1; EvPrint; EvPrint]; ws_cnt := 1; ws_filter := FaDefault; ws_warned := false |}).
+       {| ws_log := [EvPrint; EvCount 1; EvPrint; EvPrint]; ws_cnt := [(0%nat, 1%Z)]; ws_filter := FaDefault; ws_warned := false |}).
 Proof. vm_compute. repeat split; reflexivity. Qed.
+
+(* two count_calls wrappers around one function are two objects with two counters: both count every call; a wrapper
+   created after three calls of the inner one starts at 0 (decoration as an operation inside the history) *)
+Example C18_example_count_stacked :
+  let f := ex_fn 1 in
+  let inner := ex_cx_id 0 f in
+  let outer := ex_cx_id 1 (as_callee d_count_calls inner) in
+  let calls := [([VObj 1], []); ([], []); ([VObj 2], [])] in
+  let s3 := run_calls (use_wrapped d_count_calls inner) calls ex_s0 in
+  ws_cnt (ws s3) = [(0%nat, 3%Z)] /\
+  ws_cnt (ws (run_calls (use_wrapped d_count_calls outer) calls s3)) = [(0%nat, 6%Z); (1%nat, 3%Z)].
+Proof. vm_compute. split; reflexivity. Qed.
